@@ -3,6 +3,7 @@
   Statements about the Model (`Emu.Gcs`); helper lemmas are in `Emu.Proofs.Gcs`.
 -/
 import Emu.Proofs.Gcs
+import Emu.Proofs.LeafTie.ValidateConds
 
 namespace Emu.Props.C04
 open Emu Emu.Gcs
@@ -85,5 +86,18 @@ theorem delete_gated (s : Store) (b n : Bytes) (r : RawConds) (c : Conds) (hn : 
 example : validateConds (some ⟨[97], [1], 5, 2, {}⟩) { genMatch := 5, metaNotMatch := 3 } = .ok := by decide
 example : validateConds (some ⟨[97], [1], 5, 2, {}⟩) { genNotMatch := 5 } = .notModified := by decide
 example : validateConds none { genNotMatch := 5 } = .preconditionFailed := by decide
+
+/-! ### Tie T1: the repository's own text of the precondition test
+
+`Emu.Generated.Leaf.validateConds` is regenerated from `validateConds` (gcsemu.go) by the leaf
+translator on every run (returning the HTTP status of the error, 0 for `nil`); the Model's
+`validateConds`, which the theorems above are about, is the same function, status for status. -/
+
+theorem source_validateConds_is_the_models (o : Option Obj) (c : Conds) :
+    Emu.Generated.Leaf.validateConds (o.map Emu.Proofs.LeafTie.toG) (Emu.Proofs.LeafTie.toGC c)
+      = Emu.Proofs.LeafTie.code (validateConds o c) :=
+  Emu.Proofs.LeafTie.validateConds_tie o c
+
+example : Emu.Generated.Leaf.validateConds (some { Generation := 7, Metageneration := 2 }) { GenerationNotMatch := 7 } = 304 := by decide
 
 end Emu.Props.C04
